@@ -15,7 +15,9 @@
 (***************************************************************************)
 EXTENDS CallStack, TLC
 
-CONSTANTS N, T, Builder, ExcludeTouch, ExcludeZeroPairs
+CONSTANTS N, T, Builder, ExcludeTouch, ExcludeZeroPairs,
+          U,          \* ticks per microsecond: spans start on whole microseconds (multiples of U) and end on any tick
+          TruncEnd    \* TRUE: the close endpoint is computed as ts + int(dur) as the old builder did before fix 1dc194b (D22)
 
 Spans == { sp \in [ts : 0..T, dur : 0..T] : sp.ts + sp.dur <= T }
 
@@ -24,10 +26,16 @@ vars == <<fam, remaining, st, last, phase>>
 S == Range(fam)
 Less(x, y) == IF Builder = "new" THEN LessNew(x, y) ELSE LessOld(x, y)
 
+\* the endpoints the builder sorts: exact, or with the close instant truncated to whole microseconds (pre-fix old builder)
+EP(F) == IF TruncEnd
+         THEN { [id |-> e.id, dur |-> e.dur, kind |-> "open",  time |-> e.ts] : e \in F } \cup
+              { [id |-> e.id, dur |-> e.dur, kind |-> "close", time |-> e.ts + (e.dur \div U) * U] : e \in F }
+         ELSE Endpoints(F)
+
 \* the family is built span by span (ids = positions), only properly nested families continue: every family of at most N spans is reached
 Init == fam = <<>> /\ remaining = {} /\ st = MachInit /\ last = [id |-> 0, kind |-> "none", top |-> 0] /\ phase = "build"
 AddSpan == /\ phase = "build" /\ Len(fam) < N
-           /\ \E t \in 0..T, d \in 0..T :
+           /\ \E t \in { x \in 0..T : x % U = 0 }, d \in 0..T :
                  /\ t + d <= T
                  /\ Laminar(Range(fam) \cup {[id |-> Len(fam) + 1, ts |-> t, dur |-> d]}) = TRUE     \* "= TRUE": evaluate as a value, do not split the action on the disjunctions inside
                  /\ fam' = Append(fam, [id |-> Len(fam) + 1, ts |-> t, dur |-> d])
@@ -35,7 +43,7 @@ AddSpan == /\ phase = "build" /\ Len(fam) < N
 Start == /\ phase = "build" /\ Len(fam) >= 1
          /\ (ExcludeTouch => ~ZeroAtTouch(Range(fam)))
          /\ (ExcludeZeroPairs => ~ZeroPair(Range(fam)))
-         /\ remaining' = Endpoints(Range(fam)) /\ phase' = "run"
+         /\ remaining' = EP(Range(fam)) /\ phase' = "run"
          /\ UNCHANGED <<fam, st, last>>
 
 Minimal(e) == \A r \in remaining \ {e} : ~Less(r, e)
@@ -52,7 +60,7 @@ Spec == Init /\ [][Next]_vars
 
 \* for the old comparator the "sic" branch answers 0 in one direction only; symmetrised, it must still be a strict total order
 LessSym(x, y) == IF Builder = "new" THEN LessNew(x, y) ELSE (CmpOld(x, y) < 0 \/ CmpOld(y, x) > 0)
-TotalOrder == (phase = "run" /\ remaining = Endpoints(S)) => IsStrictTotal(LessSym, Endpoints(S))
+TotalOrder == (phase = "run" /\ remaining = EP(S)) => IsStrictTotal(LessSym, EP(S))
 Sortable == (phase = "run" /\ remaining # {}) => \E e \in remaining : Minimal(e)
 \* a close pops its own event (or one with the same span: swapping identical spans is harmless)
 LIFO == last.kind = "close" =>
